@@ -241,7 +241,8 @@ def wf_node_clauses(n):
 def wf_conn_clauses(c):
     qs = c.f["q_sample"]
     j = z3.Int("j!qs")
-    return [("fifo", wf_conn(c)), ("tick>=0", c.f["_tick"] >= 0),
+    fifo = [("fifo", wf_conn(c))] if c.f["input_node"].f["_clock"] is CLOCK["SIMULATED"] else [("queues well-formed", c.f["q_ts_input"].wf())]
+    return fifo + [("tick>=0", c.f["_tick"] >= 0),
             ("samples>=0", z3.ForAll([j], z3.Implies(z3.And(qs.lo <= j, j < qs.hi), z3.Select(qs.arrs[()], j) >= 0)))]
 
 
